@@ -414,8 +414,8 @@ def isinstance_cond(ex, st, v, cls):
     if issubclass(_blk.EventCond, cls): parts.append(Val.is_EC(z))
     if issubclass(_fsm.Goto, cls): parts.append(Val.is_Goto(z))
     if issubclass(type(C.REAL_UNDEF()), cls): parts.append(Val.is_Undef(z))
-    if cls is _blk.EventCond or cls is _fsm.Goto:
-        pass        # frozen dataclasses modelled as values (EC / Goto), never as heap objects
+    if cls is _blk.EventCond or cls is _fsm.Goto or cls in (int, float, bool, str, bytes, type(None), complex):
+        pass        # value classes: modelled by their own constructors of Val, never as heap objects / opaque values
     elif not _is_container_abc(cls):
         # encoding assumption: mappings / sequences / sets that reach edzed are the built-in ones (dict, tuple, list,
         # str, frozenset); user-defined container classes are outside the model
@@ -678,6 +678,14 @@ def _minmax(ex, st, pos, node, is_max):
         x, y = as_kind(ex._b2i(a), k, st), as_kind(ex._b2i(b), k, st)
         # Python returns the first argument on ties; with mixed int/float the *value* is the same real
         return [(st, ZV('real' if real else 'int', If(y > x, y, x) if is_max else If(y < x, y, x)))]
+    if ka in ('int', 'real', 'val') and kb in ('int', 'real', 'val'):
+        za, zb = to_val(a, st), to_val(b, st); outs = []
+        for s1, ok in ex.fork(st, And(is_num(za), is_num(zb)), f'L{node.lineno}.minmax_num'):
+            if not ok: outs.append((s1, ex.raise_(s1, 'TypeError', where='builtin'))); continue
+            x, y = num(za), num(zb)
+            # the *value* of the result (Python returns one of the argument objects; their numeric value is what matters here)
+            outs.append((s1, ZV('real', If(y > x, y, x) if is_max else If(y < x, y, x))))
+        return outs
     raise Unsupported('min/max on non-numbers')
 
 
@@ -929,3 +937,88 @@ def _register_value_classes():
 
 
 _register_value_classes()
+
+
+@builtin(divmod)
+def _divmod(ex, st, pos, named, node):
+    a, b = pos
+    outs = []
+    for s1, q in ex.binop(st, ast.FloorDiv(), a, b, node):
+        if isinstance(q, Raise): outs.append((s1, q)); continue
+        for s2, m in ex.binop(s1, ast.Mod(), a, b, node):
+            outs.append((s2, m if isinstance(m, Raise) else PTuple([q, m])))
+    return outs
+
+
+round_half = Function('py_round', RealSort(), IntSort())              # round(x): nearest integer (ties to even)
+round_dec = Function('py_round_dec', RealSort(), IntSort(), RealSort())  # round(x, p) for floats
+
+
+def round_axioms(x):
+    r = ToReal(round_half(x))
+    return [r - x <= RealVal('1/2'), x - r <= RealVal('1/2')]
+
+
+def round_dec_term(x, p_py):
+    """round(x, p) for a concrete precision p: the nearest multiple of 10^-p, i.e. round(x * 10^p) / 10^p
+    (real-arith: floats as reals; which neighbour is chosen on an exact tie is left open)"""
+    scale = 10 ** p_py
+    return ToReal(round_half(x * scale)) / scale, round_axioms(x * scale)
+
+
+@builtin(round)
+def _round(ex, st, pos, named, node):
+    x = pos[0]
+    nk = ex._numkind(x)
+    if nk == 'int' and len(pos) == 1: return [(st, x)]
+    if nk != 'real': raise Unsupported(f'round({x!r})')
+    xz = as_kind(x, REAL, st); st = st.copy()
+    ex.spec.note_assumption('real-arith: round() is a spec function with |round(x, p) - x| <= 10^-p / 2 (IEEE-754 rounding not modelled)')
+    if len(pos) == 1:
+        st.assume(*round_axioms(xz)); return [(st, ZV('int', round_half(xz)))]
+    p = pos[1]
+    if isinstance(p, PConst) and isinstance(p.obj, int):
+        t, ax = round_dec_term(xz, p.obj)
+        st.assume(*ax); return [(st, ZV('real', t))]
+    h = ex.spec.calls.get('builtin:round')
+    if h is not None: return h(ex, st, xz, p, node)
+    return [(st, ZV('real', round_dec(xz, as_kind(p, INT, st))))]
+
+
+@builtin(zip)
+def _zip(ex, st, pos, named, node):
+    from .loops import static_items, StaticIter
+    cols = [static_items(ex, p) for p in pos]
+    if any(c is None for c in cols): raise Unsupported('zip of a symbolic-length sequence')
+    return [(st, PConst(StaticIter([PTuple(list(t)) for t in zip(*cols)])))]
+
+
+@builtin(enumerate)
+def _enumerate(ex, st, pos, named, node):
+    from .loops import static_items, StaticIter
+    items = static_items(ex, pos[0])
+    if items is None: raise Unsupported('enumerate of a symbolic-length sequence')
+    start = named.get('start', pos[1] if len(pos) > 1 else PConst(0))
+    return [(st, PConst(StaticIter([PTuple([PConst(start.obj + i), it]) for i, it in enumerate(items)])))]
+
+
+@method(ZV, 'join')
+@method(PConst, 'join')
+def _join(ex, st, recv, pos, named, node):
+    if isinstance(recv, ZV) and recv.kind not in ('str', 'val'): return None
+    if isinstance(recv, PConst) and not isinstance(recv.obj, str): return None
+    v = pos[0]
+    if not isinstance(v, PTuple): raise Unsupported('str.join of a symbolic-length sequence')
+    sep = ex.as_str(st, recv)
+    acc = None
+    for it in v.items:
+        z = ex.as_str(st, it); acc = z if acc is None else Concat(acc, sep, z)
+    return [(st, ZV('str', acc if acc is not None else StringVal('')))]
+
+
+@method(ZV, 'replace')
+def _replace(ex, st, recv, pos, named, node):
+    if recv.kind not in ('str', 'val'): return None
+    if len(pos) == 3 and isinstance(pos[2], PConst) and pos[2].obj == 1:
+        return [(st, ZV('str', z3.Replace(ex.as_str(st, recv), ex.as_str(st, pos[0]), ex.as_str(st, pos[1]))))]
+    raise Unsupported('str.replace of all occurrences')
